@@ -42,6 +42,10 @@ func setBundleIDFromConsumableStore(ctx context.Context, bundle *Bundle) error {
 	for _, key := range keys {
 		bundleID, err = getBundleIDFromPath(key)
 		if err != nil {
+			if _, notMeta := err.(model.ConsumableStorePathMetadataErr); notMeta {
+				// a regular file of the bundle, not a metadata path
+				continue
+			}
 			return err
 		}
 		if bundleID != "" {
